@@ -194,6 +194,7 @@ type behaviour struct {
 	segs  [][]byte // for kind raw: plaintext pieces are not used; cut positions into the ciphertext in k… (see segments)
 	cuts  []int
 	delay time.Duration
+	delay2 time.Duration
 }
 
 type peer struct {
@@ -288,6 +289,13 @@ func (p *peer) act(c net.Conn, pc *peerCipher, b behaviour) bool {
 		// wait for the client to give up
 		io.Copy(io.Discard, c)
 		return false
+	case "late":
+		// answer only after the client's receive time-out has passed
+		time.Sleep(b.delay2)
+		ct := enc(frameBytes(b.items, true, now.Unix(), int32(now.Nanosecond())))
+		if _, err := c.Write(ct); err != nil {
+			return false
+		}
 	case "closeBefore":
 		return false
 	case "closeInside":
